@@ -346,6 +346,11 @@ def pfile_tables(P, headers):
             body.append('    printf("%%s%%d:%%d", %s, pbcv_called, pbcv_a_svc == (void *) &pbcv_svc%d && pbcv_a_in == (void *) &dummy_in && pbcv_a_cl == (const void *) op_svc && pbcv_a_cd == (void *) &dummy_cd);' % ('","' if k else '""', si))
         body.append('    memset(&fresh, 0x5a, sizeof fresh); %s__init(&fresh, pbcv_destroy%d);' % (lc, si))
         body.append('    { int cleared = 1; void **h = (void **) (&fresh.base + 1); for (k = 0; k < d->n_methods; k++) if (h[k]) cleared = 0;')
+        # "initialising a service clears all handlers" whatever the object held before: a second initialisation of an
+        # object in use, and the initialisation of a copy of a statically initialised (__INIT) service (seeded change S92)
+        body.append('      for (k = 0; k < d->n_methods; k++) h[k] = (void *) op_svc;')
+        body.append('      %s__init(&fresh, pbcv_destroy%d); for (k = 0; k < d->n_methods; k++) if (h[k]) cleared = 0;' % (lc, si))
+        body.append('      fresh = pbcv_svc%d; %s__init(&fresh, pbcv_destroy%d); for (k = 0; k < d->n_methods; k++) if (h[k]) cleared = 0;' % (si, lc, si))
         body.append('      pbcv_destroyed = 0; protobuf_c_service_destroy(&fresh.base);')
         body.append('      printf(" init_desc=%%d init_invoke=%%d cleared=%%d destroyed=%%d\\n", fresh.base.descriptor == d, fresh.base.invoke == protobuf_c_service_invoke_internal, cleared, pbcv_destroyed == %d + 1); }' % si)
         body.append('    return;')
